@@ -171,6 +171,27 @@ def run_variant(f, q, variant):
     return cols, cur.fetchall(), sql
 
 
+def reuse_probe(f, q):
+    """a caller keeps ONE filters list (holding the first filter) and passes it to two queries on one layer: first together with the other filters
+    written as segments, then alone.  The second query names no segment, so it must return the rows of a fresh layer given a fresh list with that one filter."""
+    from sidemantic.core.segment import Segment
+    dbm, mbm, drefs, mrefs = c02.field_names(q)
+    fl = list(q["filters"])
+    rest = fl[1:] or [(fl[0][0], ("not", fl[0][1]))]
+    extra, segments = {}, []
+    for i, (m, e) in enumerate(rest):
+        extra.setdefault(m, {}).setdefault("segments", []).append(Segment(name="sg%d" % i, sql=fsql(e, "{model}.")))
+        segments.append("%s.sg%d" % (m, i))
+    L = jg.real_layer(f, mbm, dbm, extra_model_kw=extra)
+    text0 = fsql(fl[0][1], fl[0][0] + ".")
+    shared, mlist, dlist, slist = [text0], list(mrefs), list(drefs), list(segments)
+    first = L.conn.execute(L.compile(metrics=mlist, dimensions=dlist, filters=shared, segments=slist)).fetchall()
+    second = L.conn.execute(L.compile(metrics=mlist, dimensions=dlist, filters=shared)).fetchall()
+    L2 = jg.real_layer(f, mbm, dbm, extra_model_kw=extra)
+    fresh = L2.conn.execute(L2.compile(metrics=list(mrefs), dimensions=list(drefs), filters=[text0])).fetchall()
+    return first, second, fresh, dict(filters_list_before=[text0], filters_list_after=list(map(str, shared)), metrics_list_after=mlist, dimensions_list_after=dlist, segments_list_after=slist)
+
+
 def canon(rows):
     from harness import dbutil
     return dbutil.canon_rows(rows)
@@ -227,6 +248,17 @@ def run(c):
             c.violation("the same filters written as %s return different rows than as a list" % diff,
                         {"kind": "case", "forest": f, "query": q, "list_rows": [list(map(str, r)) for r in base[2][:8]], "other": {v: [list(map(str, r)) for r in results[v][2][:8]] for v in diff}, "sql": {v: results[v][3][-700:] for v in diff}})
             continue
+        if q["filters"] and i % 3 == 0:
+            try:
+                first, second, fresh, after = reuse_probe(f, q)
+                stats["reused_lists"] = stats.get("reused_lists", 0) + 1
+                if (len(q["filters"]) > 1 and canon(first) != base[1]) or canon(second) != canon(fresh):
+                    c.violation("a query is restricted by the segments of an EARLIER query that was given the same filters list object" if canon(second) != canon(fresh) else "the segment form returns other rows when the lists are the caller's own",
+                                {"kind": "reuse", "forest": f, "query": q, "second_rows": [list(map(str, r)) for r in second[:8]], "unfiltered_rows": [list(map(str, r)) for r in fresh[:8]], "lists_after": after})
+                    continue
+            except Exception as e:
+                c.violation("re-using the caller's lists fails: %s" % str(e)[:150], {"kind": "reuse", "forest": f, "query": q})
+                continue
         if len(base[2]) > 1:
             nontrivial += 1
         # oracle (a): spec over the model
@@ -297,13 +329,17 @@ def replay(path):
     body = json.load(open(path))
     r = body["replay"]
     print(json.dumps({k: v for k, v in r.items() if k != "forest"}, indent=1, default=str)[:3000])
-    if r.get("kind") != "case":
+    if r.get("kind") not in ("case", "reuse"):
         return 1
     f, q = r["forest"], r["query"]
     q["dims"] = [(m, c02.sg_t(e)) for m, e in q["dims"]]
     q["mets"] = [(m, a, c02.sg_t(e) if e else None, [c02.sg_t(x) for x in fl]) for m, a, e, fl in q["mets"]]
     q["filters"] = [(m, _ft(e)) for m, e in q["filters"]]
     res = {}
+    if r.get("kind") == "reuse":
+        first, second, fresh, after = reuse_probe(f, q)
+        print("second:", second[:6], "fresh:", fresh[:6], after)
+        return 0 if canon(second) == canon(fresh) else 1
     for v in ("list", "conj", "reversed", "segment_model", "segment_bare"):
         try:
             res[v] = canon(run_variant(f, q, v)[1])
